@@ -34,6 +34,7 @@ Definition origin_ok (o : pop) : Prop :=
   | BankSend from _ _ => from <> MOD
   | Toggle => True
   | SetSendEnabled _ => True
+  | ConvertForeignCoin _ _ _ => True
   end.
 
 (** * The backing invariant of one pair *)
@@ -934,6 +935,13 @@ Proof.
   all: break_goal; cbn; lia.
 Qed.
 
+(* a MsgConvertCoin whose coin only bears the name of the pair's contract address (a foreign
+   denomination) is refused in every state, and the state stays as it was *)
+Lemma foreign_coin_refused s p sender receiver amt :
+  exec s (OnPair p (ConvertForeignCoin sender receiver amt)) = None /\
+  deliver s (OnPair p (ConvertForeignCoin sender receiver amt)) = s.
+Proof. split; reflexivity. Qed.
+
 (** * C14: the gates *)
 
 (* the two conversion messages *)
@@ -1171,6 +1179,7 @@ Proof.
     repeat split; try lia.
     rewrite upd_other by congruence. rewrite upd_other by congruence. reflexivity.
   - cbn [exec_pair] in E. inversion E; subst. cbn. repeat split; lia.
+  - cbn [exec_pair] in E. discriminate.
 Qed.
 
 Theorem disabled_period_frozen ops : forall s p,
